@@ -1245,6 +1245,19 @@ func poolAndHeaderFactsLean(p *Pkg) string {
 		fmt.Fprintf(&o, "  ⟨%s, %d, %s, %s, %s, %d, %d, %d, %d⟩%s\n", leanStr(r.file), r.line, leanStr(r.fn), leanStr(r.key), leanStr(r.via), r.sites, r.defers, r.minRel, r.maxRel, sep)
 	}
 	o.WriteString("]\n\n")
+	o.WriteString("/-- variables of the enclosing function assigned by a goroutine literal outside lib/query: (file, function, variable) -/\n")
+	o.WriteString("def outsideGoWrites : List (String × String × String) := [")
+	sort.Slice(outsideGoWrites, func(i, j int) bool {
+		a, b := outsideGoWrites[i], outsideGoWrites[j]
+		return a[0]+a[1]+a[2] < b[0]+b[1]+b[2]
+	})
+	for i, w := range outsideGoWrites {
+		if i > 0 {
+			o.WriteString(", ")
+		}
+		fmt.Fprintf(&o, "(%s, %s, %s)", leanStr(w[0]), leanStr(w[1]), leanStr(w[2]))
+	}
+	o.WriteString("]\n\n")
 	shares, writes := headerFacts(p)
 	o.WriteString("/-- every place a View's Header is set: made anew, or another view's header — and then: is it written afterwards -/\n")
 	o.WriteString("def headerShareFacts : List HeaderShareFact := [\n")
@@ -1271,6 +1284,60 @@ func poolAndHeaderFactsLean(p *Pkg) string {
 
 // outsideScan: the other packages under lib/ (lib/value has pools of its own, property C14).  They are only parsed:
 // a call of a releaser there has no rule (the program stops), an acquisition is listed as never released.
+// goroutines started OUTSIDE lib/query (the command line front end, the actions, the terminal): (file, function,
+// variable) for every variable of the enclosing function that a `go func() {…}()` literal assigns — such a variable
+// is written by the goroutine and read by its parent with nothing ordering the two unless the code says so; results
+// are handed over through channels there.  Parse-only (identifier resolution of go/parser).
+var outsideGoWrites [][3]string
+
+func goCapturedWrites(file string, fd *ast.FuncDecl) [][3]string {
+	var out [][3]string
+	ast.Inspect(fd.Body, func(n ast.Node) bool {
+		g, ok := n.(*ast.GoStmt)
+		if !ok {
+			return true
+		}
+		fl, ok := g.Call.Fun.(*ast.FuncLit)
+		if !ok {
+			return true
+		}
+		captured := func(e ast.Expr) string {
+			id := rootIdent(e)
+			if id == nil || id.Obj == nil || id.Obj.Kind != ast.Var {
+				return ""
+			}
+			d, ok := id.Obj.Decl.(ast.Node)
+			if !ok || (fl.Pos() <= d.Pos() && d.Pos() < fl.End()) {
+				return ""
+			}
+			if !(fd.Pos() <= d.Pos() && d.Pos() < fd.End()) {
+				return ""
+			}
+			return exprText(e)
+		}
+		ast.Inspect(fl.Body, func(m ast.Node) bool {
+			switch x := m.(type) {
+			case *ast.AssignStmt:
+				if x.Tok == token.DEFINE {
+					return true
+				}
+				for _, l := range x.Lhs {
+					if v := captured(l); v != "" {
+						out = append(out, [3]string{file, funcLabel(fd), v})
+					}
+				}
+			case *ast.IncDecStmt:
+				if v := captured(x.X); v != "" {
+					out = append(out, [3]string{file, funcLabel(fd), v})
+				}
+			}
+			return true
+		})
+		return true
+	})
+	return out
+}
+
 func outsideScan(rel map[*types.Func]releaser) []releaseFact {
 	relNames := map[string]bool{"NewChildProcessor": true}
 	for _, r := range rel {
@@ -1306,6 +1373,7 @@ func outsideScan(rel map[*types.Func]releaser) []releaseFact {
 				if !ok || fd.Body == nil {
 					continue
 				}
+				outsideGoWrites = append(outsideGoWrites, goCapturedWrites(filepath.Base(fn), fd)...)
 				ast.Inspect(fd.Body, func(n ast.Node) bool {
 					switch x := n.(type) {
 					case *ast.SelectorExpr:
